@@ -139,6 +139,71 @@ func ruleL1(p *Prog) *RuleResult {
 			res.bad(fr.fn+"|framing", p.pos(f.Pos()), fmt.Sprintf("64-bit framing fields are %v, the extension spec says one 8-byte count and one 4-byte key per bucket", got))
 		}
 	}
+	// 64-bit size predictor: 8 + Σ (4 + inner size)
+	if f := p.Func("(*roaring64.roaringArray64).serializedSizeInBytes"); f == nil {
+		res.undecided("(*roaring64.roaringArray64).serializedSizeInBytes|framing", "-", "anchor not found")
+	} else {
+		c := "(*roaring64.roaringArray64).serializedSizeInBytes|framing"
+		init, perBucket, inner, okShape := int64(-1), int64(0), 0, false
+		for _, b := range f.Blocks {
+			r, ok := b.Instrs[len(b.Instrs)-1].(*ssa.Return)
+			if !ok || len(r.Results) != 1 {
+				continue
+			}
+			ph, ok := r.Results[0].(*ssa.Phi)
+			if !ok || len(ph.Edges) != 2 {
+				continue
+			}
+			okShape = true
+			for _, e := range ph.Edges {
+				if k, isC := constIntVal(e); isC {
+					init = k
+					continue
+				}
+				// flatten the sum added per iteration
+				var leaves func(v ssa.Value, d int)
+				leaves = func(v ssa.Value, d int) {
+					if d > 6 {
+						okShape = false
+						return
+					}
+					switch x := v.(type) {
+					case *ssa.BinOp:
+						if x.Op != token.ADD {
+							okShape = false
+							return
+						}
+						leaves(x.X, d+1)
+						leaves(x.Y, d+1)
+					case *ssa.Const:
+						if k, ok := constIntVal(x); ok {
+							perBucket += k
+						}
+					case *ssa.Phi:
+						if x != ph {
+							okShape = false
+						}
+					case *ssa.Call:
+						if g := x.Call.StaticCallee(); g != nil && fname(g) == "(*roaring.Bitmap).GetSerializedSizeInBytes" {
+							inner++
+						} else {
+							okShape = false
+						}
+					default:
+						okShape = false
+					}
+				}
+				leaves(e, 0)
+			}
+		}
+		if okShape && init == 8 && perBucket == 4 && inner == 1 {
+			res.ok(c, p.pos(f.Pos()), "8 + per bucket (4 + inner GetSerializedSizeInBytes)")
+		} else if !okShape {
+			res.undecided(c, p.pos(f.Pos()), "the predictor is not a single accumulation loop over the buckets")
+		} else {
+			res.bad(c, p.pos(f.Pos()), fmt.Sprintf("predicts %d + per bucket (%d + %d inner sizes); the writer emits an 8-byte count and a 4-byte key before each inner bitmap", init, perBucket, inner))
+		}
+	}
 	return res
 }
 
